@@ -1,10 +1,14 @@
 use crate::util::Run;
 
 pub mod c01;
+pub mod c03;
+pub mod c13;
 
 pub fn dispatch(id: &str, run: &mut Run) -> bool {
     match id {
         "C01" => c01::run(run),
+        "C03" => c03::run(run),
+        "C13" => c13::run(run),
         _ => return false,
     }
     true
